@@ -53,7 +53,8 @@ Inductive sop :=
 | ORemSelf                           (* rem(s, s) *)
 | OMemSelf                           (* mem(s, s) *)
 | OCmpSelf                           (* cmp(s, s) *)
-| OEqSelf.                           (* eq(s, s) *)
+| OEqSelf                            (* eq(s, s) *)
+| OCopy.                             (* s = assign(alloc(String), s), the original is deleted *)
 
 (* ------------------------------------------------------------------ list helpers *)
 
@@ -187,6 +188,9 @@ Section Model.
 
   Definition m_new (v : list byte) : option buffer := m_assign [] v.
 
+  (* String_New without arguments: val = calloc(1, 1) *)
+  Definition m_new_empty : buffer := [Some 0].
+
   (* assign(s, s).  New shape: n = strlen(c_str(obj)); val = realloc(val, n+1);
      memmove(val, c_str(obj), n+1) with c_str(obj) = the new val.
      Old shape: val fetched before the realloc and read by strcpy after it — the block may have
@@ -297,6 +301,11 @@ Section Model.
     | OMemSelf => obs b (fun h => SBool (match find_sub h h with Some _ => true | None => false end))
     | OCmpSelf => obs b (fun h => SSign (str_compare h h))
     | OEqSelf => obs b (fun h => SBool (match str_compare h h with Eq => true | _ => false end))
+    (* a fresh object (val = NULL) assigned from this one; this one's buffer is freed *)
+    | OCopy => match c_str b with
+               | Some h => match m_assign [] h with Some b' => (b', SUnit) | None => (b, SCrash) end
+               | None => (b, SCrash)
+               end
     end.
 
   (* a history: stops at the first crash (nothing is defined after undefined behaviour) *)
@@ -351,6 +360,7 @@ Definition spec_step (s : list byte) (o : sop) : list byte * sout :=
   | OMemSelf => (s, SBool true)
   | OCmpSelf => (s, SSign Eq)
   | OEqSelf => (s, SBool true)
+  | OCopy => (s, SUnit)
   end.
 
 Fixpoint spec_run (s : list byte) (ops : list sop) : list sout * list byte :=
